@@ -32,6 +32,7 @@ try:
         print(c, rc, sigs[:3])
 finally:
     sh("git checkout -- .", "/repo")
+    sh("git checkout -- evidence", "/verif")
 meta["checks"] = results
 meta["detected_by"] = [c for c, r in results.items() if r["exit"] == 1]
 json.dump(meta, open(f"{d}/meta.json", "w"), indent=1)
